@@ -525,7 +525,7 @@ pub fn generate(tier: &str, seed: u64, out: &mut Out) {
     maps.push(("default".into(), Beatmap::default()));
     // a compact map with every record kind and every path-type spelling once, small enough for
     // every output offset to be exercised
-    let all_kinds = "osu file format v14\n\n[General]\nAudioFilename: a.mp3\nMode: 0\n\n[Metadata]\nTitle:t\nBeatmapID:7\n\n[Events]\n0,0,\"bg.jpg\",0,0\n2,100,200\n\n[TimingPoints]\n0,400,4,2,1,60,1,0\n300,-50,4,1,0,70,0,1\n\n[Colours]\nCombo1 : 1,2,3\nSliderBorder : 4,5,6\n\n[HitObjects]\n10,20,100,1,0,0:0:0:0:\n10,20,300,2,0,B3|30:40|50:20|70:40,1,80\n10,20,500,6,2,B|30:40|50:20|50:20|70:40|L|90:40,2,120,2|0|2,0:0|1:2|0:0,0:0:0:0:\n10,20,900,2,0,P|30:40|50:20,1,50\n10,20,1100,2,0,C|30:40|50:20,1,50\n10,20,1300,2,0,B1|30:40,1,20\n256,192,1500,12,0,1700,0:0:0:0:\n64,192,1900,128,0,2000:1:2:3:40:hit.wav\n";
+    let all_kinds = "osu file format v14\n\n[General]\nAudioFilename: a.mp3\nAudioLeadIn: 5\nPreviewTime: 7\nCountdown: 2\nSampleSet: Soft\nStackLeniency: 0.3\nMode: 0\nLetterboxInBreaks: 1\nSpecialStyle: 1\nWidescreenStoryboard: 1\nEpilepsyWarning: 1\nSamplesMatchPlaybackRate: 1\nCountdownOffset: 3\n\n[Editor]\nBookmarks: 1,2\nDistanceSpacing: 1.5\n\n[Metadata]\nTitle:t\nBeatmapID:7\n\n[Events]\n0,0,\"bg.jpg\",0,0\n2,100,200\n\n[TimingPoints]\n0,400,4,2,1,60,1,0\n300,-50,4,1,0,70,0,1\n\n[Colours]\nCombo1 : 1,2,3\nSliderBorder : 4,5,6\n\n[HitObjects]\n10,20,100,1,0,0:0:0:0:\n10,20,300,2,0,B3|30:40|50:20|70:40,1,80\n10,20,500,6,2,B|30:40|50:20|50:20|70:40|L|90:40,2,120,2|0|2,0:0|1:2|0:0,0:0:0:0:\n10,20,900,2,0,P|30:40|50:20,1,50\n10,20,1100,2,0,C|30:40|50:20,1,50\n10,20,1300,2,0,B1|30:40,1,20\n256,192,1500,12,0,1700,0:0:0:0:\n64,192,1900,128,0,2000:1:2:3:40:hit.wav\n";
     for mode in 0..4 {
         if let Ok(m) = rosu_map::from_str::<Beatmap>(&all_kinds.replace("Mode: 0", &format!("Mode: {mode}"))) {
             maps.push((format!("all-kinds-mode{mode}"), m));
